@@ -209,9 +209,30 @@ def parseWord (w0 : String) : Option Entry :=
   | some pre => (parseNumber (String.ofList pre)).map Entry.mul
   | none => (parseNumber w).map Entry.num
 
+/-- split into lines -/
+def linesOf : List Char → List Char → List (List Char) → List (List Char)
+  | [], cur, acc => (cur.reverse :: acc).reverse
+  | c :: cs, cur, acc => if c == '\n' then linesOf cs [] (cur.reverse :: acc) else linesOf cs (c :: cur) acc
+
+/-- a comment line: within the first five columns a lone `c` followed by a blank or the end of the line -/
+def isCommentLine (cs : List Char) : Bool :=
+  let lead := cs.takeWhile (· == ' ')
+  lead.length ≤ 4 &&
+    match cs.dropWhile (· == ' ') with
+    | c :: r => (c == 'c' || c == 'C') && (match r with | [] => true | d :: _ => d == ' ')
+    | [] => false
+
+/-- MCNP's comments inside the text of one input: `$` to the end of the line; comment lines (not the first line,
+    which starts with the input's own first word) -/
+def decomment (s : String) : String :=
+  let ls := linesOf s.toList [] []
+  let kept := (ls.zipIdx).filterMap fun (l, k) =>
+    if k > 0 && isCommentLine l then none else some (l.takeWhile (· != '$'))
+  String.ofList (List.intercalate ['\n'] kept)
+
 /-- the values a written list denotes -/
 def readText (s : String) : Option (List Val) :=
-  match (words s).mapM parseWord with
+  match (words (decomment s)).mapM parseWord with
   | none => none
   | some es => expand es
 
